@@ -37,7 +37,7 @@ def teardown(ctx):
 
 
 def cases(tier, seed):
-    out = pool.pool_cases(tier, seed, ['c01', 'c02', 'c07', 'c08', 'c13', 'c09'], 120 if tier == 'quick' else 800)
+    out = pool.pool_cases(tier, seed, ['c01', 'c02', 'c07', 'c08', 'c13', 'c09'], 120 if tier == 'quick' else 3000)
     if tier == 'thorough':
         out.insert(0, pool.ambient_case(PID))
     if tier == 'thorough':
@@ -47,7 +47,7 @@ def cases(tier, seed):
             continue
         for rep in range(1 if tier == 'quick' else 3):
             out.append({'kind': 'program', 'seed': case_seed('C12', seed, prog.name, rep), 'params': {'prog': prog.name, 'P': 1 + rep % 2, 'D': [3, 2, 5][rep % 3]}})
-    for i in range(80 if tier == 'quick' else 6000):
+    for i in range(80 if tier == 'quick' else 20000):
         out.append({'kind': 'program', 'seed': case_seed('C12', seed, 'comp', i), 'params': {'prog': 'comp', 'P': 1 + i % 2, 'D': 2 + i % 4}})
     from .c01 import T as c01_table
     for name in sorted(c01_table().keys()):
